@@ -8,10 +8,11 @@ pub mod c05;
 pub mod c06;
 pub mod c07;
 pub mod c08;
+pub mod c09;
 pub mod c17;
 pub mod hostile;
 
-pub const ALL: &[&str] = &["C01", "C02", "C03", "C04", "C05", "C06", "C07", "C08", "C13", "C17"];
+pub const ALL: &[&str] = &["C01", "C02", "C03", "C04", "C05", "C06", "C07", "C08", "C09", "C13", "C17"];
 
 pub fn make(id: &str) -> Option<Box<dyn Check>> {
     match id {
@@ -24,6 +25,7 @@ pub fn make(id: &str) -> Option<Box<dyn Check>> {
         "C06" => Some(Box::new(c06::C06)),
         "C07" => Some(Box::new(c07::C07)),
         "C08" => Some(Box::new(c08::C08)),
+        "C09" => Some(Box::new(c09::C09)),
         "C17" => Some(Box::new(c17::C17::new())),
         _ => None,
     }
